@@ -57,7 +57,9 @@ func ccallCheck(n int, kinds [3]int, es [3]error, calls, done [3]*int, cancelled
 		}
 		if err == nil {
 			// nil only after all of them have returned nil
-			vrt.Assert(c == 1 && d == 1 && kinds[i] == 1, "ccall-nil-only-if-all-nil")
+			vrt.Assert(c == 1, "ccall-nil-only-if-all-called")
+			vrt.Assert(d == 1, "ccall-nil-only-if-all-returned")
+			vrt.Assert(kinds[i] == 1, "ccall-nil-only-if-all-nil")
 		}
 		if kinds[i] != 1 {
 			allNil = false
@@ -75,6 +77,8 @@ func ccallCheck(n int, kinds [3]int, es [3]error, calls, done [3]*int, cancelled
 		}
 		vrt.Assert(ok, "ccall-error-was-returned-by-a-function")
 	}
+	// a function that waits for its context ends only if the caller cancels or another fails
+	_ = anyWait
 	if anyErr && !cancelled {
 		vrt.Assert(err != nil && err != context.Canceled, "ccall-error-not-lost")
 	}
@@ -101,6 +105,11 @@ func H_C17_Three() {
 	cancelled := vrt.Bool("cancel")
 	if cancelled {
 		vrt.CancelAnytime(cancel)
+	}
+	if kinds[0] == 3 || kinds[1] == 3 || kinds[2] == 3 {
+		// a waiting function ends only if another one fails (the caller's cancellation is an
+		// environment event that may never come)
+		vrt.Assume(kinds[0] == 2 || kinds[1] == 2 || kinds[2] == 2)
 	}
 	err := ccall.CallConcurrently(ctx,
 		ccallEntry(kinds[0], es[0], calls[0], done[0]),
@@ -130,6 +139,9 @@ func H_C17_Two() {
 	if cancelled {
 		vrt.CancelAnytime(cancel)
 	}
+	if kinds[0] == 3 || kinds[1] == 3 {
+		vrt.Assume(kinds[0] == 2 || kinds[1] == 2)
+	}
 	err := ccall.CallConcurrently(ctx,
 		ccallEntry(kinds[0], es[0], calls[0], done[0]),
 		ccallEntry(kinds[1], es[1], calls[1], done[1]))
@@ -151,9 +163,8 @@ func H_C17_Small() {
 	e := errors.New("e")
 	var c, d int
 	ctx, cancel := context.WithCancel(context.Background())
-	if kind == 3 {
-		vrt.CancelAnytime(cancel)
-	}
+	vrt.Assume(kind != 3) // a single waiting function never returns unless the caller cancels
+	_ = cancel
 	err = ccall.CallConcurrently(ctx, ccallEntry(kind, e, &c, &d))
 	switch kind {
 	case 0:
